@@ -11,7 +11,7 @@ import (
 func VerifC07_AddEarnedFee() {
 	verifExpect("credited")
 	e := newSvEnv(true)
-	zero, one, w := big.NewInt(0), big.NewInt(1), verifPow2(64)
+	zero, one, w := big.NewInt(0), big.NewInt(1), verifAmt(64)
 	e.k.SetOwner(e.ctx, e.p1, e.owner)
 	e.k.SetOwnerProvider(e.ctx, e.owner, e.p1)
 	ep0 := verifIntIn("earnedProvider", zero, w)
@@ -45,7 +45,7 @@ func VerifC07_AddEarnedFee() {
 func VerifC07_Withdraw() {
 	verifExpect("withdrawn", "refused")
 	e := newSvEnv(false)
-	zero, w := big.NewInt(0), verifPow2(64)
+	zero, w := big.NewInt(0), verifAmt(64)
 	for _, p := range []sdk.AccAddress{e.p1, e.p2} {
 		e.k.SetOwner(e.ctx, p, e.owner)
 		e.k.SetOwnerProvider(e.ctx, e.owner, p)
